@@ -248,3 +248,98 @@ Proof.
   destruct (addr_eqb (f_owner sl) sg); cbn [andb negb]; [|reflexivity].
   destruct (addr_eqb (n_value w) (f_owner sl)); reflexivity.
 Qed.
+
+(* ---------------- data and records of a name ---------------- *)
+Lemma gen_UpdateName_spec parse_ok name_found sender_ok not_owner h expires :
+  gen_UpdateName parse_ok name_found sender_ok not_owner h expires
+  = if parse_ok && name_found && sender_ok && negb not_owner && negb (expires <? h)
+    then GVal ([Ev "data-becomes-the-message's" []; Ev "set-name" []], true)
+    else GVal ([], false).
+Proof.
+  unfold gen_UpdateName. destruct parse_ok, name_found, sender_ok, not_owner; try reflexivity; cbn [negb andb].
+  destruct (expires <? h); reflexivity.
+Qed.
+
+Lemma gen_AddRecord_spec parse_ok name_found h expires not_owner value_has_dot label_taken :
+  gen_AddRecord parse_ok name_found h expires not_owner value_has_dot label_taken
+  = if parse_ok && name_found && negb (expires <? h) && negb not_owner && negb value_has_dot && negb label_taken
+    then GVal ([Ev "append-record" []; Ev "set-name" []], true)
+    else GVal ([], false).
+Proof.
+  unfold gen_AddRecord. destruct parse_ok, name_found; try reflexivity; cbn [negb andb].
+  destruct (expires <? h); [reflexivity|]. destruct not_owner, value_has_dot, label_taken; reflexivity.
+Qed.
+
+Lemma gen_DelRecord_spec parse_ok has_sub name_found h expires not_owner record_present :
+  gen_DelRecord parse_ok has_sub name_found h expires not_owner record_present
+  = if parse_ok && has_sub && name_found && negb (expires <? h) && negb not_owner && record_present
+    then GVal ([Ev "records-without-the-label" []; Ev "set-name" []], true)
+    else GVal ([], false).
+Proof.
+  unfold gen_DelRecord. destruct parse_ok, has_sub, name_found; try reflexivity; cbn [negb andb].
+  destruct (expires <? h); [reflexivity|]. destruct not_owner, record_present; reflexivity.
+Qed.
+
+Theorem do_update_is_the_interpretation s (sg : addr) n data :
+  let w := the_name s n in
+  do_update s sg n data
+  = if ok_of (gen_UpdateName (is_some (nm_key n)) (is_some w) true
+                (match w with Some r => negb (addr_eqb (n_value r) (canon sg)) | None => false end)
+                (height s) (match w with Some r => n_expires r | None => 0 end))
+    then match nm_key n, w with
+         | Some k, Some r => Some (set_names s (aset N.eqb (names s) k (with_data r data)))
+         | _, _ => None
+         end
+    else None.
+Proof.
+  cbv zeta. rewrite gen_UpdateName_spec. unfold do_update, the_name, ok_of.
+  destruct (nm_key n) as [k|]; cbn [is_some andb negb]; [|reflexivity].
+  destruct (get_name s k) as [w|]; cbn [is_some andb negb]; [|reflexivity].
+  destruct (addr_eqb (n_value w) (canon sg)); cbn [andb negb]; [|reflexivity].
+  rewrite Z.gtb_ltb. destruct (n_expires w <? height s); reflexivity.
+Qed.
+
+Theorem do_add_record_is_the_interpretation s (sg : addr) n rec_raw rec_lower value value_has_dot data :
+  let w := the_name s n in
+  do_add_record s sg n rec_raw rec_lower value value_has_dot data
+  = if ok_of (gen_AddRecord (is_some (nm_key n)) (is_some w) (height s) (match w with Some r => n_expires r | None => 0 end)
+                (match w with Some r => negb (addr_eqb sg (n_value r)) | None => false end) value_has_dot
+                (match w with Some r => existsb (fun sd => N.eqb (sr_name sd) rec_raw) (n_subs r) | None => false end))
+    then match nm_key n, w with
+         | Some k, Some r =>
+             Some (set_names s (aset N.eqb (names s) k
+                    (with_subs r (n_subs r ++ [{| sr_name := rec_lower; sr_value := value; sr_data := data; sr_expires := n_expires r |}]))))
+         | _, _ => None
+         end
+    else None.
+Proof.
+  cbv zeta. rewrite gen_AddRecord_spec. unfold do_add_record, the_name, ok_of.
+  destruct (nm_key n) as [k|]; cbn [is_some andb negb]; [|reflexivity].
+  destruct (get_name s k) as [w|]; cbn [is_some andb negb]; [|reflexivity].
+  rewrite Z.gtb_ltb. destruct (n_expires w <? height s); cbn [andb negb]; [reflexivity|].
+  destruct (addr_eqb sg (n_value w)); cbn [andb negb]; [|reflexivity].
+  destruct value_has_dot; cbn [andb negb]; [reflexivity|].
+  destruct (existsb _ (n_subs w)); reflexivity.
+Qed.
+
+Theorem do_del_record_is_the_interpretation s (sg : addr) n sub :
+  let w := match nm_key n, sub with Some _, Some (_, k) => get_name s k | _, _ => None end in
+  do_del_record s sg n sub
+  = if ok_of (gen_DelRecord (is_some (nm_key n)) (is_some sub) (is_some w) (height s) (match w with Some r => n_expires r | None => 0 end)
+                (match w with Some r => negb (addr_eqb sg (n_value r)) | None => false end)
+                (match w, sub with Some r, Some (label, _) => existsb (fun sd => N.eqb (sr_name sd) label) (n_subs r) | _, _ => false end))
+    then match sub, w with
+         | Some (label, k), Some r =>
+             Some (set_names s (aset N.eqb (names s) k (with_subs r (filter (fun sd => negb (N.eqb (sr_name sd) label)) (n_subs r)))))
+         | _, _ => None
+         end
+    else None.
+Proof.
+  cbv zeta. rewrite gen_DelRecord_spec. unfold do_del_record, ok_of.
+  destruct (nm_key n) as [k0|]; cbn [is_some andb negb]; [|reflexivity].
+  destruct sub as [[label k]|]; cbn [is_some andb negb]; [|reflexivity].
+  destruct (get_name s k) as [w|]; cbn [is_some andb negb]; [|reflexivity].
+  rewrite Z.gtb_ltb. destruct (n_expires w <? height s); cbn [andb negb]; [reflexivity|].
+  destruct (addr_eqb sg (n_value w)); cbn [andb negb]; [|reflexivity].
+  destruct (existsb _ (n_subs w)); reflexivity.
+Qed.
